@@ -21,7 +21,8 @@ FailK(prop, c, clause, kf) == [prop |-> prop, id |-> c.id, kind |-> c.kind, q |-
 Fail(prop, c, clause) == FailK(prop, c, clause, "none")
 
 \* C05: the text printed from the tree by the documented table parses back to that tree
-C05(g) == LET chk(c) == IF c.kind \notin {"min","paren"} THEN <<>>
+\* (the spacing variants are part of C05's quantifier: a tight print such as +5 must still be MUST(5))
+C05(g) == LET chk(c) == IF c.kind \notin {"min","paren","ws"} THEN <<>>
                         ELSE IF ~Ok(c.res) THEN <<Fail("C05", c, "rejected")>>
                         ELSE IF c.res.tree # c.expect THEN <<Fail("C05", c, "different tree")>>
                         ELSE <<>>
@@ -158,7 +159,7 @@ RECURSIVE Cat(_, _)
 Cat(ss, i) == IF i > Len(ss) THEN <<>> ELSE ss[i] \o Cat(ss, i + 1)
 \* failures per group (a group has at most ~20 cases, so the recursion is shallow)
 GroupFails(g) == LET per == Judge(g) IN Cat(per, 1)
-Relevant(c) == CASE Prop = "C05" -> c.kind \in {"min","paren"} [] Prop = "C07" -> c.kind = "juxt"
+Relevant(c) == CASE Prop = "C05" -> c.kind \in {"min","paren","ws"} [] Prop = "C07" -> c.kind = "juxt"
                  [] Prop = "C09" -> c.kind \in {"paren","ws"} [] Prop = "C06" -> c.kind # "ws"
                  [] Prop \in {"C03","C04"} -> c.kind \in {"min","paren","juxt"} [] OTHER -> TRUE
 
